@@ -183,44 +183,49 @@ func (ph *ParseHandler) ParseAll(b []byte) (int, error) {
 
 		switch op {
 		case CATCH:
-			r, n, m, bb, err := ParseCatch(b)
-			b = bb
+			var r string
+			var n uint32
+			var m bool
+			r, n, m, b, err = ParseCatch(b)
 			if err == nil {
 				err = ph.Catch(r, n, m)
 			}
 		case CROAK:
-			n, m, bb, err := ParseCroak(b)
-			b = bb
+			var n uint32
+			var m bool
+			n, m, b, err = ParseCroak(b)
 			if err == nil {
 				err = ph.Croak(n, m)
 			}
 		case LOAD:
-			r, n, bb, err := ParseLoad(b)
-			b = bb
+			var r string
+			var n uint32
+			r, n, b, err = ParseLoad(b)
 			if err == nil {
 				err = ph.Load(r, n)
 			}
 		case RELOAD:
-			r, bb, err := ParseReload(b)
-			b = bb
+			var r string
+			r, b, err = ParseReload(b)
 			if err == nil {
 				err = ph.Reload(r)
 			}
 		case MAP:
-			r, bb, err := ParseMap(b)
-			b = bb
+			var r string
+			r, b, err = ParseMap(b)
 			if err == nil {
 				err = ph.Map(r)
 			}
 		case MOVE:
-			r, bb, err := ParseMove(b)
-			b = bb
+			var r string
+			r, b, err = ParseMove(b)
 			if err == nil {
 				err = ph.Move(r)
 			}
 		case INCMP:
-			r, v, bb, err := ParseInCmp(b)
-			b = bb
+			var r string
+			var v string
+			r, v, b, err = ParseInCmp(b)
 			if err == nil {
 				err = ph.InCmp(r, v)
 			}
@@ -235,20 +240,23 @@ func (ph *ParseHandler) ParseAll(b []byte) (int, error) {
 				err = ph.MSink()
 			}
 		case MOUT:
-			r, v, bb, err := ParseMOut(b)
-			b = bb
+			var r string
+			var v string
+			r, v, b, err = ParseMOut(b)
 			if err == nil {
 				err = ph.MOut(r, v)
 			}
 		case MNEXT:
-			r, v, bb, err := ParseMNext(b)
-			b = bb
+			var r string
+			var v string
+			r, v, b, err = ParseMNext(b)
 			if err == nil {
 				err = ph.MNext(r, v)
 			}
 		case MPREV:
-			r, v, bb, err := ParseMPrev(b)
-			b = bb
+			var r string
+			var v string
+			r, v, b, err = ParseMPrev(b)
 			if err == nil {
 				err = ph.MPrev(r, v)
 			}
